@@ -79,8 +79,15 @@ for sid in sorted(os.listdir(SEEDS)):
         continue
     meta = json.load(open(mp))
     prop = meta['property']
-    meta['head_confirmation'] = confirm(sid)
-    meta['detected_by'] = detect(sid, prop) if meta['head_confirmation'].get('applies') else []
+    hc = confirm(sid)
+    if not hc.get('applies'):
+        # the lines it changed were rewritten by a later fix: commit; the detection recorded at the HEAD it was written for is kept
+        meta['no_longer_applies_at'] = hc.get('repo_head')
+        json.dump(meta, open(mp, 'w'), indent=1)
+        print(sid, 'no longer applies at', hc.get('repo_head'), flush=True)
+        continue
+    meta['head_confirmation'] = hc
+    meta['detected_by'] = detect(sid, prop)
     json.dump(meta, open(mp, 'w'), indent=1)
     best = next((r for r in meta['detected_by'] if r.get('caught') and r.get('concrete_input')), None) or next((r for r in meta['detected_by'] if r.get('caught')), None)
     row = (sid, 'valid' if meta['head_confirmation'].get('valid') else 'INVALID@HEAD', (best['tier'] + ('/input' if best['concrete_input'] else '/no-input')) if best else 'MISSED')
